@@ -136,8 +136,8 @@ func H_RuntimeChain() {
 	// where the planted fault sits inside its statement: 0 in a block guarded
 	// by the symbolic raise point; otherwise (only at the chosen raise point) in
 	// a 每当 condition on its second pass, in a 再如 condition, in the statement
-	// right after a finished block, or in a nested block of a loop's second pass
-	shape := zv.Choose(5)
+	// right after a finished block, in a nested block of a loop's second pass, or in a 每当 condition tested again after 继续循环
+	shape := zv.Choose(6)
 	guard := func(ind string, lvl, st int) {
 		if shape == 0 {
 			b.add(fmt.Sprintf("%s如果 D == %d 且 K == %d：", ind, lvl, st))
@@ -163,6 +163,12 @@ func H_RuntimeChain() {
 			b.add(ind + "如果 Z == 0：")
 			b.add(ind + "    令空转 = 1")
 			fault[lvl][st] = b.add(ind + "令W" + tag + " = 1 / Z")
+		case 5: // the pass before the faulting test of the condition ends with 继续循环
+			b.add(ind + "令轮" + tag + " = 0")
+			fault[lvl][st] = b.add(ind + "每当 1 / {1 - 轮" + tag + " + Z} > 0：")
+			b.add(ind + "    轮" + tag + " = 轮" + tag + " + 1")
+			b.add(ind + "    继续循环")
+			b.add(ind + "    令空转 = 1")
 		default:
 			b.add(ind + "以项遍历【1，0】：")
 			b.add(ind + "    令空转 = 项")
